@@ -78,6 +78,19 @@ pub fn check(c: &Case, st: &mut Stats) -> CheckResult {
     if rng.requests() > 0 {
         st.class("rng_touched_before_ctx_guard");
     }
+    // ... also when the caller's generator fails (an error path must not bypass the guard)
+    for faults in [vec![crate::libapi::Fault::ErrBefore], vec![crate::libapi::Fault::ErrAfter(16)], vec![crate::libapi::Fault::None, crate::libapi::Fault::ErrBefore]] {
+        for infallible_panics in [false, true] {
+            let mut rng = TestRng::with_faults(&rnd, faults.clone(), infallible_panics);
+            match g_sign(&*sk, &mut rng, &m, &ctx, mode) {
+                Ok(Err(_)) => {}
+                Ok(Ok(_)) => fail!(format!("long_ctx_signed_with_failing_rng:{tag}"), "{tag}: signing returned a signature for a context of {} bytes when the caller's generator fails ({faults:?})", c.len),
+                Err(pi) if pi.msg.contains("TestRng: infallible") => st.class("infallible_rng_method_used(judged by C12)"),
+                Err(pi) => return Err(Fail::panic("sign (failing rng, long ctx)", &pi)),
+            }
+        }
+    }
+    st.class("len>255:failing_rng_variants");
     match g("try_sign(os rng)", || sk.sign_os(&m, &ctx, mode))? {
         Err(_) => {}
         Ok(_) => fail!(format!("long_ctx_signed_os:{tag}"), "{tag}: try_sign/try_hash_sign (OS RNG) returned a signature for a context of {} bytes", c.len),
